@@ -109,9 +109,9 @@ theorem C09_published_stays (S : Spec) : ∀ (t : Trace) (st st' : AS) (fs : FS)
 theorem C09_reuse_without_recompile (S : Spec) (c : Config) (pid : Nat) (fs : FS)
     (hp : ∀ q ∈ needed c, fs.present q = true) :
     (run S pid (buildProg c) fs).1 = some true ∧ noExec (buildSteps S pid c fs) = true := by
-  obtain ⟨a, fs', t, es', h1, ha, _, hE⟩ :=
+  obtain ⟨a, fs', t, es', h1, ha, hE⟩ :=
     triple_buildProg_warm (S := S) (pid := pid) (c := c) (E := fun o => isExec o = false) (fun _ h => h)
-      [] fs (EnvOK.nil c) hp
+      [] fs (EnvOK.nil S c _ fs) hp
   have hrun : run S pid (buildProg c) fs = (some a, fs', t) := by rw [run_eq_runE, h1]
   unfold buildSteps
   rw [hrun]
@@ -122,12 +122,12 @@ theorem C09_reuse_without_recompile (S : Spec) (c : Config) (pid : Nat) (fs : FS
 
 /-- No process fails because of another process's in-progress build: whatever the other processes do between
     the steps of this build — as long as they never remove a final-named file and never touch this
-    process's temp names (`Rely`; both follow from the discipline without rmrf) — the build returns normally,
-    with its binary in place. -/
+    process's temp names (`Rely`, checked along the run by `EnvOK`; both follow from the discipline without
+    rmrf) — the build returns normally, with every artefact a later build needs in place. -/
 theorem C09_build_succeeds_under_interference (S : Spec) (c : Config) (hinj : ∀ i j, c.toks i = c.toks j → i = j)
-    (hpo : c.parseOk = true) (pid : Nat) (es : List (FS → FS)) (hes : EnvOK c es) (fs : FS) :
-    ∃ fs' t es', runE S pid (buildProg c) es fs = (some true, fs', t, es') ∧ fs'.present (c.k "binary") = true := by
-  obtain ⟨a, fs', t, es', h1, ⟨ha, hb⟩, _, _⟩ :=
+    (hpo : c.parseOk = true) (pid : Nat) (es : List (FS → FS)) (fs : FS) (hes : EnvOK S c (buildProg c) es fs) :
+    ∃ fs' t es', runE S pid (buildProg c) es fs = (some true, fs', t, es') ∧ ∀ q ∈ needed c, fs'.present q = true := by
+  obtain ⟨a, fs', t, es', h1, ⟨ha, hb⟩, _⟩ :=
     triple_buildProg (S := S) (pid := pid) (c := c) (E := fun _ => True) (fun _ _ => trivial) hinj
       (fun _ _ => trivial) hpo es fs hes (fun _ h => by cases h)
   subst ha
